@@ -1240,6 +1240,31 @@ func ruleC09a(c *Ctx) {
 						}
 					}
 				}
+				// one function decides whether the preflight is granted and writes the grant after its checks (C09.b); a
+				// second granting call on the preflight path runs whether or not that function refused
+				granting := map[*ssa.Function]bool{}
+				for _, cl := range in.Calls {
+					if cal := callCommon(cl).StaticCallee(); cal != nil && recvTypeName(cal) == corsType && maxGrantsAny(p, cal) > 0 {
+						granting[cal] = true
+					}
+				}
+				direct := ""
+				for _, i := range in.Path.instrs() {
+					if k, kc, _, ok := headerWrite(i); ok && kc && strings.HasPrefix(k, "Access-Control-") && i.Parent() == fn {
+						direct = p.ipos(i)
+					}
+				}
+				if direct != "" && len(granting) >= 1 {
+					badPre = "on the preflight path the filter itself writes an Access-Control response header at " + direct + " next to the call that decides the preflight: that header is sent also when the preflight was refused"
+				}
+				if len(granting) > 1 {
+					var names []string
+					for g := range granting {
+						names = append(names, g.Name())
+					}
+					sort.Strings(names)
+					badPre = "on the preflight path the filter calls " + strings.Join(names, " and ") + ", which both write Access-Control response headers: what the second one grants is sent also when the first one refused the preflight"
+				}
 			case brActual:
 				nAct++
 				if len(in.PF) != 1 {
